@@ -7,7 +7,7 @@ import iomodel
 
 RULE = ("files produced by the independent writer of harness/ioops.py (not praatio's emitters) from random tier data: labels "
         "with quotes / newlines / Unicode, empty tiers, blank-labelled intervals, duplicate tier names; numerals in plain, "
-        "integer and exponent notation, '-0' starts x layouts {long, short, elan-long, json, textgrid_json} x encodings "
+        "integer and exponent notation, '-0' starts x layouts {long, short, elan-long, tight-long (no blank before '='), json, textgrid_json} x encodings "
         "{utf-8, utf-8-sig, utf-16 LE/BE with BOM} x newline {LF, CRLF} x includeEmptyIntervals x duplicateNamesMode; "
         "each file is opened with textgrid.openTextgrid and compared with the data it was written from; the decoded text is also "
         "given to the Lean reader model. non-trivial = the data has at least one entry")
@@ -15,7 +15,7 @@ TRUSTED = ["oracle: the data the file was written from (harness/props/C03.py:ora
            "ioops.spec_write/json_write (its output is decoded back by the independent reader in the same run)"]
 ASSUMPTIONS = ["labels and names avoid the reader-splitting keywords of known finding A10 (C01 reports those)",
                "names non-empty, single-line, trimmed; no carriage returns in labels"]
-LAYOUTS = ["long", "short", "elan", "json", "textgrid_json"]
+LAYOUTS = ["long", "short", "elan", "tight", "json", "textgrid_json"]
 ENCODINGS = ["utf-8", "utf-8-sig", "utf-16", "utf-16-le-bom", "utf-16-be-bom"]
 
 case_json = lambda c: c
@@ -82,7 +82,7 @@ def oracle(c, r):
     sig = {"op": "open", "layout": c["layout"]}
     # the independent writer and the independent reader agree on this file (guards the oracle itself)
     try:
-        back = ioops.decode_any(r["text"], {"long": "long_textgrid", "short": "short_textgrid", "elan": "long_textgrid"}.get(c["layout"], c["layout"]))
+        back = ioops.decode_any(r["text"], {"long": "long_textgrid", "short": "short_textgrid", "elan": "long_textgrid", "tight": "long_textgrid"}.get(c["layout"], c["layout"]))
     except Exception as e:  # noqa: BLE001
         raise AssertionError(f"independent writer/reader disagree: {e}")
     names = [t["name"] for t in d["tiers"]]
@@ -166,6 +166,15 @@ def corpus():
                                         {"k": "I", "name": "i", "es": [[1.0, 2.0, 'a"\nb']], "lo": 0.0, "hi": 5.0}]}
     for layout in LAYOUTS:
         yield {"op": "open", "data": d2, "layout": layout, "style": "plain", "enc": "utf-8", "newline": "\n", "iei": True, "dup": "error", "negzero": False}
+    # A22 (fixed, df3976c): the class row written without the blank before '=' - an interval tier must stay an interval tier;
+    # and a point tier whose name / mark spell the class row must stay a point tier
+    d3 = {"lo": 0.0, "hi": 2.0, "tiers": [{"k": "I", "name": "a", "es": [[0.0, 1.0, "x y"]], "lo": 0.0, "hi": 2.0},
+                                        {"k": "P", "name": 'class= "IntervalTier"', "es": [[1.0, 'class="IntervalTier"']], "lo": 0.0, "hi": 2.0}]}
+    for nl in ("\n", "\r\n"):
+        yield {"op": "open", "data": d3, "layout": "tight", "style": "plain", "enc": "utf-8", "newline": nl, "iei": True, "dup": "error", "negzero": False}
+    for t in ['class= "IntervalTier"', 'class ="IntervalTier"', 'class="IntervalTier"', 'class = "IntervalTier"', 'class  = "IntervalTier"',
+              'xclass = "IntervalTier"', 'mark = "class = ""IntervalTier"""', 'class =\n"IntervalTier"', 'class = "IntervalTier', 'class == "IntervalTier"']:
+        yield {"op": "u_class", "s": t}
 
 
 def gen(rnd, tier):
@@ -174,7 +183,7 @@ def gen(rnd, tier):
         yield from derived(c, rnd)
 
 
-UNIT_ALPHABET = ["xmin", "xmax", "text", "name", "number", "mark", " ", "=", "\"", "\"\"", "\n", "\t", "\x1c", "1", "2.5", "-", "e", "E", "+", "e-05", ".", "a",
+UNIT_ALPHABET = ["xmin", "xmax", "text", "name", "number", "mark", "class", "\"IntervalTier\"", "IntervalTier", " ", "=", "\"", "\"\"", "\n", "\t", "\x1c", "1", "2.5", "-", "e", "E", "+", "e-05", ".", "a",
                  "item", "intervals", "[", " [", "\u0663", "\r", "\u3000"]
 
 
@@ -188,15 +197,20 @@ def unit_cases(rnd, n):
             yield {"op": "u_num", "s": s, "kw": rnd.choice(["xmin", "xmax", "number"]), "neg": rnd.random() < 0.5, "ascii": True}
         elif k < 0.6:
             yield {"op": "u_text", "s": s, "kw": rnd.choice(["text", "name", "mark"]), "dotall": rnd.random() < 0.6}
-        elif k < 0.75:
+        elif k < 0.7:
             yield {"op": "u_split", "s": s, "kw": rnd.choice(["item", "intervals"])}
+        elif k < 0.8:
+            # the class test `class ?= ?"IntervalTier"` (A22): adversarial spacings, prefixes, doubled quotes
+            t = "".join(rnd.choice(["class", "xclass", " ", "  ", "=", "\"IntervalTier\"", "\"\"IntervalTier\"\"", "\"TextTier\"", "IntervalTier", "\"",
+                                    "\n", "mark = \"", "a"]) for _ in range(rnd.randint(0, 8)))
+            yield {"op": "u_class", "s": rnd.choice([s, t, t])}
         else:
             t = "".join(rnd.choice(["\"", "\"\"", "a", " ", "\n", "b\"", "\"\"\"", "\t"]) for _ in range(rnd.randint(0, 10)))
             yield {"op": rnd.choice(["u_fetchtext", "u_fetchrow"]), "s": t, "i": rnd.randint(0, max(0, len(t))), "anyerr": False}
 
 
 def derived(c, rnd):
-    if c["layout"] in ("long", "short", "elan"):
+    if c["layout"] in ("long", "short", "elan", "tight"):
         yield {"op": "parse", "text": file_text(c), "iei": c["iei"]}
     yield from unit_cases(rnd, 2)
     if rnd.random() < 0.2:
